@@ -149,16 +149,14 @@ def _fn_greads(tree="repo"):
 
 
 def _greads_of(facts):
-    if True:
-        if True:
-        names = facts["names"]
-        tab = {}
-        for m in facts["modules"]:
-            for f in m["funcs"]:
-                tab[(m["name"], f["name"], f["line"])] = sorted(
-                    {names[e[1]] for e in f["evs"] if e[0] in ("load", "attr")
-                     and not names[e[1]].endswith(extract_facts.LOCAL_SUFFIX)})
-            return tab
+    names = facts["names"]
+    tab = {}
+    for m in facts["modules"]:
+        for f in m["funcs"]:
+            tab[(m["name"], f["name"], f["line"])] = sorted(
+                {names[e[1]] for e in f["evs"] if e[0] in ("load", "attr")
+                 and not names[e[1]].endswith(extract_facts.LOCAL_SUFFIX)})
+    return tab
 
 
 def _source_counts(tree="repo"):
@@ -483,7 +481,8 @@ def compare(case, res, replies):
             names = set()
             for s in res["star"].values():
                 names |= set(s["names"])
-            model_names = set(m["ns"].get(main, {})) - {"lena"}
+            model_names = set(m["ns"].get(main, {})) - {"lena"}     # the entry's own `import lena.X` binds `lena`
+            names -= {"lena"}
             if names != model_names:
                 return (f"names bound by the star import: impl-only {sorted(names - model_names)}, "
                         f"model-only {sorted(model_names - names)}")
